@@ -1,0 +1,9 @@
+//go:build !verif
+
+package buffer
+
+// verifOn guards the tracing hooks of the verification harness (build tag
+// "verif"); with the tag off the guarded statements are dead code.
+const verifOn = false
+
+func verifTrace(b *Buffer, op string, p []byte, n int) func() { return nil }
